@@ -1,8 +1,8 @@
 #!/bin/bash
-# run_queue.sh <jobs> <ID>...   : runs the quick checks one after the other, logs to /tmp/run_<ID>.log
-jobs=$1; shift
+# run_queue.sh <name> <jobs> <ID>...   : runs the checks one after the other, logs to /tmp/run_<ID>.log
+name=$1; jobs=$2; shift; shift
 for id in "$@"; do
-  echo "=== $id start $(date +%T)" >> /tmp/run_queue.log
+  echo "=== $id start $(date +%T)" >> /tmp/queue_$name.log
   /verif/bin/check $id --tier ${TIER:-quick} --jobs $jobs > /tmp/run_$id.log 2>&1
-  echo "=== $id exit $? $(date +%T)" >> /tmp/run_queue.log
+  echo "=== $id exit $? $(date +%T)" >> /tmp/queue_$name.log
 done
